@@ -299,6 +299,12 @@ def run(ck):
         for t in T:
             for cmd in PAIR_CMDS:
                 add(cmd, [s, t], "pair-exh")
+    if thorough:
+        # one size up for the search family: every text of length 5 against every needle of length <= 2
+        for s in ("".join(t) for t in itertools.product(ALPHA, repeat=5)):
+            for t in strings_upto(ALPHA, 2):
+                for cmd in PAIR_CMDS:
+                    add(cmd, [s, t], "pair-exh")
     # needles longer than haystacks
     for s in strings_upto(ALPHA, 2):
         for t in strings_upto(ALPHA, 3):
@@ -321,6 +327,14 @@ def run(ck):
             for cmd in ("indexof", "last_indexof", "split"):
                 add(cmd, [s, t], "overlap-exh")
             add("replace", [s, t, "é"], "overlap-exh")
+    # letter case and look-alikes must not be identified by any of the tests / searches
+    CASEW = ["abc", "aBc", "ABC", "Abc", "xabcx", "xABCx", "\u00e9", "\u00c9", "e\u0301", "\u00df", "SS", "ss", "i", "I", "\u0130",
+             "k", "K", "\u212a", "\u01c6", "\u01c5", "a", "A", "\uff41"]
+    for x in CASEW:
+        for y in CASEW:
+            for cmd in PAIR_CMDS:
+                add(cmd, [x, y], "case-variants")
+            add("replace", [x, y, "_"], "case-variants")
     n_exh = len(cases) - n0
 
     # (c) arity and numeric malformations
@@ -546,9 +560,24 @@ def run(ck):
 
     # calc
     calc_dist = {}
+    big_total = big_rounded = 0
+    big_samples = []
     for e, kl, cl, args, m, i in zip(trees, k_lines, calc_lines, calc_args, m_k, i_k):
-        key = "calc:" + (m[:1] if m[:1] == "V" else m)
+        key = "calc:" + (m[:1] if m[:1] == "V" else "BIG" if m.startswith("BIG") else m)
         calc_dist[key] = calc_dist.get(key, 0) + 1
+        if m.startswith("BIG"):
+            # an integer result beyond 2^53 (still inside i64): must be printed exactly (finding F19, fixed in 0d59524:
+            # eval_number used to convert the result to f64)
+            big_total += 1
+            if i != "V" + m[3:]:
+                big_rounded += 1
+                if len(big_samples) < 3:
+                    big_samples.append({"expression": " ".join(args), "exact": dec_str(m[3:]), "calc": dec_str(i[1:]) if i.startswith("V") else i})
+                report("model-vs-implementation (calc: integer result beyond 2^53 not exact)", "calc", args, cl, "V" + m[3:], i, [],
+                       {"expression_tree": kl})
+            else:
+                nontriv.add(cl)
+            continue
         if m == "OOD":
             ood += 1
             if i == "PANIC" or i.startswith("X") or i.startswith("DIED"):
@@ -562,7 +591,6 @@ def run(ck):
     if not same("E15", i_k[-1]):
         report("model-vs-implementation", "calc", [], "R\tcalc\t-", "E15", i_k[-1], [])
     dist.update(calc_dist)
-
     n_eval = len(cases) + len(trees) + len(units_second) + 2
     ck.coverage.update({
         "evaluations": n_eval,
@@ -570,10 +598,13 @@ def run(ck):
         "rule": "one evaluation = one command call on both sides; non-trivial = distinct case whose model result is a value or a "
                 "list (not an error / none) and that has at least one non-empty argument. Exhaustive part: every string of "
                 "length <= %d over {a,b,é,😀,space}: substring with no index, every single index in [-bytes-2, bytes+2] and every "
-                "index pair in [-2, bytes+2]^2; every (haystack of length <= %d, needle of length <= %d) pair and every (haystack "
+                "index pair in [-2, bytes+2]^2; every (haystack of length <= %d, needle of length <= %d) pair%s and every (haystack "
                 "<= 2, needle <= 3) pair for indexof/last_indexof/contains/starts_with/ends_with/equals/split; replace on "
-                "haystack <= 3, pattern <= 2, five replacements; trim family on every string of length <= %d over 12 white-space "
-                "candidates; range for all bounds in [-4,5]^2" % (n_s, n_s, n_t, 4 if thorough else 3),
+                "haystack <= 3, pattern <= 2, five replacements; every text of length <= %d over {a,b} against every pattern of "
+                "length <= 3 (overlapping occurrences) for indexof/last_indexof/split/replace; 23 letter-case / look-alike words "
+                "pairwise; trim family on every string of length <= %d over 12 white-space candidates; range for all bounds "
+                "in [-4,5]^2" % (n_s, n_s, n_t, " plus (length 5, needle <= 2)" if thorough else "", 7 if thorough else 6,
+                                 4 if thorough else 3),
         "exhaustive": True,
         "exhaustive_part": {"cases": n_exh, "strings": len(S), "needles": len(T)},
         "groups": groups,
@@ -581,6 +612,8 @@ def run(ck):
         "outside_modelled_domain_not_compared": ood,
         "substring_end_equals_length_unconstrained": unconstrained,
         "units_second_pass": len(units_second),
+        "calc_integer_results_beyond_2^53": {"cases": big_total, "rounded_by_calc": big_rounded, "samples": big_samples,
+                                             "note": "compared exactly since the fix of finding F19 (calc rounded integer results through f64)"},
         "spec_vs_model_cases": len(s_lines),
         "samples": [r_lines[0], r_lines[len(r_lines) // 3], r_lines[-1], k_lines[0] + " => " + " ".join(calc_args[0])],
     })
@@ -594,7 +627,7 @@ def run(ck):
         "digits and magnitude in [1e-290, 1e290] or zero (there decimal->f64 is injective and monotone); inf / nan / longer "
         "literals are outside the domain and only checked not to panic",
         "calc: evalexpr is third-party and not modelled; integer expression trees with + - * / % and unary minus are compared with a "
-        "checked-i64 evaluator, results beyond 2^53 are outside the domain (eval_number converts the result to f64)",
+        "checked-i64 evaluator (integer results are compared exactly over the whole i64 range)",
         "uppercase / lowercase: compared with the ASCII mapping on ASCII-only text; the Unicode case tables are not modelled",
         "concat is script-implemented (for-in over the argument array through the alias-command wrapper): modelled as a left fold",
         "White_Space table checked against char::is_whitespace for all 1,112,064 scalar values on every run",
